@@ -355,3 +355,8 @@ def run(ctx):
     with ctx.rule("C03.R12", "T2", "a sync in progress cannot stall the lane: pop answers None only when nothing is queued (shared with C02.R11)", floor=1) as r:
         from rules.common import pop_until_exhausted_rule
         pop_until_exhausted_rule(r, ctx)
+
+    # a sync's events wait in the remote's map backpressure queue while its writer is busy, and MapSynced drains that queue before `synced`:
+    # the queue's own index discipline (a Clear resets queue, index and head epoch together) decides whether the snapshot arrives intact (seed C03-7)
+    from rules import C02 as _C02
+    ctx.borrow(_C02, {"C02.R1b": ("C03.R13", "the per-remote map queue a sync waits in keeps queue, index and head epoch together (C02.R1b)")})
